@@ -418,6 +418,33 @@ theorem exception_delivered_unchanged (cfg : Cfg) (tr : List Act) (e : Nat) (x :
     rw [run_append]; rfl
   rw [e1, (finish_delivers cfg tr e x hx hf hr hb).1 c hc, ho]
 
+/-- **A returned value is delivered as a value - whatever it is.**  An execution whose body RETURNS `v` - also when
+`v` is an exception object (errors as values), a `BaseException` object, a wrapper around an error: for single-flight
+just another value; `retNoStore`: one that the cache decorator underneath does not keep - completes: every caller
+waiting on it, starter and joiners alike, holds that returned value; nobody holds a raised exception (`exc`) or a
+cancellation, and an unstored value leaves the cache as it was. -/
+theorem returned_value_is_delivered_as_a_value (cfg : Cfg) (tr : List Act) (e : Nat) (x : Exec) (v : Nat)
+    (hx : (run (init cfg) tr).execs e = some x) (hf : x.finished = false) (hr : x.remaining = 0)
+    (hb : blocked (run (init cfg) tr) x = false)
+    (ho : x.outcome = .ret v ∨ x.outcome = .retNoStore v) (c : Nat)
+    (hc : (run (init cfg) tr).callers c = some ⟨some e, .waiting⟩) :
+    ((run (init cfg) (tr ++ [.finish e])).callers c = some ⟨some e, .got (.ret v)⟩ ∨
+     (run (init cfg) (tr ++ [.finish e])).callers c = some ⟨some e, .got (.retNoStore v)⟩) ∧
+    (x.outcome = .retNoStore v → (run (init cfg) (tr ++ [.finish e])).cached = (run (init cfg) tr).cached) := by
+  have e1 : run (init cfg) (tr ++ [.finish e]) = step (run (init cfg) tr) (.finish e) := by
+    rw [run_append]; rfl
+  have hd := (finish_delivers cfg tr e x hx hf hr hb).1 c hc
+  refine ⟨?_, ?_⟩
+  · rcases ho with h | h
+    · left; rw [e1, hd, h]
+    · right; rw [e1, hd, h]
+  · intro h
+    rw [e1]
+    show (stepFinish (run (init cfg) tr) e).cached = _
+    unfold stepFinish
+    rw [hx]
+    simp only [hf, hr, hb, Bool.false_eq_true, ne_eq, not_true_eq_false, or_self, if_false, h]
+
 /-- **All waiters of one execution hold the same thing**, in every reachable state: two callers attached to the same
 execution that have both received something have received the same outcome - the execution's own (for an
 exception: the same class and the same payload). -/
@@ -748,5 +775,13 @@ example : (run (init (.plain true 8)) [.call 1 7 1 (.ret 1), .call 2 8 1 (.ret 2
       = some ⟨some 1, .waiting⟩ ∧
     (run (init (.plain true 8)) [.call 1 7 1 (.ret 1), .call 2 8 1 (.ret 2), .call 3 7 0 (.ret 3)]).callers 2
       = some ⟨some 2, .waiting⟩ := by decide
+
+-- a returned value that is not stored (an exception object returned by the body, under `cache`): both waiters hold it as a
+-- value, nothing is stored, the next call runs its own body
+example : (run (init (.plain true 8)) [.call 1 0 0 (.retNoStore 903), .call 2 0 0 (.ret 8), .finish 1]).callers 2
+      = some ⟨some 1, .got (.retNoStore 903)⟩ ∧
+    (run (init (.plain true 8)) [.call 1 0 0 (.retNoStore 903), .call 2 0 0 (.ret 8), .finish 1]).cached 0 = none ∧
+    (run (init (.plain true 8)) [.call 1 0 0 (.retNoStore 903), .call 2 0 0 (.ret 8), .finish 1, .call 3 0 1 (.ret 9)]).execs 3
+      = some ⟨0, 1, .ret 9, false, false, none⟩ := by decide
 
 end CashewsVerif.Props.C07
